@@ -7,7 +7,10 @@ Two kinds of cases
         at the REAL `run` (any-of) and `accumulate_and_run` (all-of) channels of two real nodes, from
         real emitter nodes (parentless — labels may clash — or siblings inside a workflow);
   flow  a hand-wired signal graph over term / identity / Add / LessThan / If / Append children of a REAL
-        `Workflow(automate_execution=False)`, run once with `wf.run()`.
+        `Workflow(automate_execution=False)` or of a REAL macro whose graph creator makes the same connections
+        (host = "macro", optionally with a macro input whose UI node is put upstream of the starting nodes),
+        optionally with arrivals at all-of triggers before the run (stale memory); run once with `run()`;
+  xscope (corpus only, no model) an all-of trigger inside a running workflow fed from two scopes.
 The Lean driver replays the same case on the transcribed model (lock-step, line by line); the oracle
 re-derives what the property demands with its own bookkeeping: emitter IDENTITY sets for the triggers, a
 plain FIFO interpreter for the flows.
@@ -48,15 +51,18 @@ RULE = (
     "equally labelled emitters (thorough), all sugar forms of connecting, emitter calls and real emitter runs "
     "(ran / failed); flow level: templates (chains, diamonds with all-of joins, If branches, accumulate-then-"
     "branch, counter loops that exit, failure handlers) with random parameters and random extra/missing signal "
-    "edges, plus random signal graphs, kept when the plain interpreter terminates within 150 child runs; "
+    "edges, plus random signal graphs, kept when the plain interpreter terminates within 150 child runs; each hosted "
+    "by a Workflow(automate_execution=False) or (30%) built by a macro's graph creator (half of those with a macro "
+    "input whose UI node stays), 35% with stale all-of trigger memory left from before the run; "
     "non-trivial = an all-of trigger both withheld and fired (trig) / at least 3 child runs (flow)"
 )
 TRUSTED = [
     "model Signal.Acc.call / anyStep / deliver / drain / runNode transcribe AccumulatingInputSignal.__call__, "
     "InputSignal.__call__, Composite._on_run/_run_while_children_or_signals_exist/register_child_emitting and "
     "the local Node.run cycle (fetch, cache, readiness, failure); validated on the explored cases only",
-    "harness instrumentation: class-level delegating wrappers on Node.run (order of run() invocations) and "
-    "Composite.register_child_starting (run-away guard); wrapped functions log their own calls",
+    "harness instrumentation: class-level delegating wrappers on Node.run (order of run() invocations, nesting guard) "
+    "and Composite.register_child_starting (run-away guard), composite.sleep rebound to abort a composite that waits "
+    "although every child runs locally; wrapped functions log their own calls",
     "label uniqueness among siblings (hypothesis WF.inj / LabelsInjective) is re-checked on the real channel "
     "objects of every flow case and is C13's theorem",
 ]
@@ -499,11 +505,21 @@ def _run_flow(case):
         mark = len(N.CALL_LOG)
         ns[dst].signals.input.accumulate_and_run(ns[src].signals.output[CH[c]])
         pre_fired += len(N.CALL_LOG) - mark
+    import pyiron_workflow.nodes.composite as comp_mod
+
+    orig_sleep = comp_mod.sleep
+
+    def no_sleep(_t):
+        # all children run locally: a composite that waits has lost track of a child — it would wait forever
+        tripped[0] = True
+        raise Runaway()
+
     hyp = _wf_hypothesis(ns)
     by_label_early = {nd.label: i for i, nd in enumerate(ns)}
     outcome, errs = "ok", []
     Node.run = run
     Composite.register_child_starting = starting
+    comp_mod.sleep = no_sleep
     try:
         wf.run()
     except FailedChildError as e:
@@ -516,6 +532,7 @@ def _run_flow(case):
     finally:
         Node.run = orig_run
         Composite.register_child_starting = orig_starting
+        comp_mod.sleep = orig_sleep
 
     n = len(ns)
     by_label = {nd.label: i for i, nd in enumerate(ns)}
@@ -698,7 +715,7 @@ def interpret(case, max_runs=MAX_RUNS):
                 failed[i] = True
                 cached[i] = None
         emitted = [(i, 1)] if failed[i] else [(i, 0)]
-        if nd["kind"] == "if" and out[i] is not ND:
+        if nd["kind"] == "if" and not failed[i] and out[i] is not ND:  # a failed If decides nothing
             emitted.append((i, 2) if out[i] else (i, 3))
         for s in emitted:
             for r in sconn.get(s, []):
